@@ -16,7 +16,7 @@ P = {
             "Run events of the real command line over a TLC/seed generated configuration space are stepped through the Pipeline specification; every output record must be the slice (or mask/lowercase image) the model derives from the sampled Locate oracle.",
             "Locate(adapter, sequence) is sampled from the real match_to (rule R2) and constrained separately by C01/C02/C07/C08.", "5/C03"),
     "C04": ("TLC model checking of Pipeline conservation invariants + trace validation of reports against files",
-            "TLC checks Conservation/OneDestination on the pipeline model for all option subsets; every real run's JSON/text/minimal report is validated against the records actually present in all output files.",
+            "TLC checks Conservation/OneDestination on the pipeline model for all option subsets; every real run's JSON/text/minimal report is validated against the records actually present in all output files and against the sums over the recorded intermediate reads (after every modifier) of the same run.",
             "Report parsing by the harness; dnaio record writing trusted.", "5/C04"),
     "C05": ("TLC trace validation of paired runs against the Pipeline paired-filter model",
             "Paired/interleaved run events are validated record by record: same count/order, record k from the same pair, pair decisions by any/both/first with the forced 'both' and one-sided bounds, --pair-adapters both-or-neither.",
